@@ -196,6 +196,28 @@ def analyse(ctx, prog, ci, entry, rule, sites):
     return fl
 
 
+def rejection_clause(ctx, prog, classes, rule, entry='update'):
+    """the C16 analysis instantiated for a family of classes under another property's rule id: a refused batch (explicit raise
+    reachable from `entry`) leaves no partial contribution behind.  Returns the number of raise sites judged."""
+    from .. import universe as _uni
+    _uni.inline_base_entry_points(ctx, prog)
+    from .. import desugar
+    desugar.desugar_with(prog, ('scared.distinguishers', 'scared.analysis', 'scared.ttest'))
+    sites = {}
+    for ci in classes:
+        analyse(ctx, prog, ci, entry, rule, sites)
+    n = 0
+    for (r, key), rec in sorted(sites.items()):
+        n += 1
+        if rec['bad']:
+            b = rec['bad'][0]
+            ctx.fail(rule, key, f'a batch refused here has already changed the state and is not rolled back: rebound={b["rebound_left"]} in-place={b["mutated_in_place"]} '
+                     f'(e.g. via {b["entry"]}): the statistic then mixes in traces that are not counted', where=rec['where'], classes=sorted({x['class'] for x in rec['bad']}), witness=b)
+        else:
+            ctx.ok(rule, key, f'{rec["paths"]} paths over {len(rec["classes"])} classes end here with no residual effect', where=rec['where'], classes=sorted(rec['classes']))
+    return n
+
+
 def run(ctx, prog):
     ctx.rule('C16-D1', 'no path through update() that ends in a raise leaves a residual effect on persistent state: '
                        'every attribute rebinding / in-place mutation made before the raise is undone by a dictionary '
